@@ -1243,6 +1243,14 @@ Proof. vm_compute. reflexivity. Qed.
    parser and the builder both refuse 20 + len > 65535) can start two below the
    window, end inside it and still fail the assert! of l.597 *)
 Definition oversized_seg : segment :=
-  mkSeg (mkHdr 80 1000 499 101 (mkCtl false true false false false false) 65535 0) (repeat 0 65537).
+  mkSeg (mkHdr 80 1000 499 101 (mkCtl false true false false false false) 65535 0) (repeat 0 (Z.to_nat 65537)).
 Lemma oversized_text_panics : segment_arrives idle_tcb oversized_seg = Panic 2.
 Proof. vm_compute. reflexivity. Qed.
+
+(* the hypotheses of the inertness theorem are satisfiable: a RST 2^31 away in ESTABLISHED *)
+Example unacceptable_example : Inv idle_tcb /\ wf_seg far_rst /\ unacceptable idle_tcb far_rst.
+Proof.
+  split; [apply ack_antipode|].
+  split; [apply closing_not_inert|].
+  left. split; [discriminate|]. split; [discriminate|]. vm_compute. reflexivity.
+Qed.
